@@ -281,6 +281,53 @@ theorem builtin_sizes (ops : List Op) (id : Nat) (d : Desc) (hd : builtinDesc id
     simpa [runOps] using this
   exact traits_ext hext hinit
 
+/-- The fresh registry, every id: `mpt_type_traits` describes exactly the built-in ids, each the way S does (size of its
+    C type — the number clang computed, `Generated.sizeofC`, against the LP64 table of S — and init/fini only for the
+    managed types), and no other id resolves.  With `stable`, `issued_resolves` and `id_in_range` this determines
+    `mpt_type_traits` on every id that is built in or was handed out. -/
+theorem fresh_registry (id : Nat) : traits init id = (builtinDesc id).map .known := by
+  have hnone : ∀ lo hi : Nat, (∀ b ∈ builtins, ¬ (lo ≤ b.1 ∧ b.1 ≤ hi)) → lo ≤ id → id ≤ hi → builtinDesc id = none := by
+    intro lo hi h h1 h2
+    unfold builtinDesc
+    cases hf : builtins.find? (·.1 = id) with
+    | none => rfl
+    | some x =>
+      have hx : x.1 = id := by simpa using List.find?_some hf
+      exact absurd ⟨hx ▸ h1, hx ▸ h2⟩ (h x (List.mem_of_find?_eq_some hf))
+  by_cases h0 : id < 192
+  · have h : ∀ i ∈ List.range 192, traits init i = (builtinDesc i).map .known := by decide +kernel
+    exact h id (List.mem_range.2 h0)
+  by_cases h1 : id ≤ 255
+  · rw [traits_dynamic init id ⟨by omega, h1⟩, hnone 192 255 (by decide) (by omega) h1]
+    simp [init]
+  by_cases h2 : id ≤ 2047
+  · rw [traits_meta init id ⟨by omega, h2⟩]
+    by_cases h256 : id = 256
+    · subst h256; decide
+    · rw [hnone 257 2047 (by decide) (by omega) h2]
+      have : ¬ (id > TypeTab.metaLookup.2 ∨ id < TypeTab.metaLookup.1) := by
+        simp only [TypeTab.metaLookup]; omega
+      unfold metatypeTraits
+      simp only [this, if_false]
+      have hlen : init.metas.length = 1 := by decide
+      have hk : init.metas.length ≤ id - TypeTab.metaBase := by
+        simp only [hlen, TypeTab.metaBase]; omega
+      rw [List.getElem?_eq_none hk]; rfl
+  by_cases h3 : id < 2304
+  · have h : ∀ i ∈ List.range' 2048 256, traits init i = (builtinDesc i).map .known := by decide +kernel
+    exact h id (by rw [List.mem_range']; exact ⟨id - 2048, by omega, by omega⟩)
+  · rw [traits_generic init id (by omega)]
+    have hb : ∀ b ∈ builtins, b.1 < 2304 := by decide
+    have : builtinDesc id = none := by
+      unfold builtinDesc
+      cases hf : builtins.find? (·.1 = id) with
+      | none => rfl
+      | some x =>
+        have hx : x.1 = id := by simpa using List.find?_some hf
+        have := hb x (List.mem_of_find?_eq_some hf)
+        omega
+    rw [this]; simp [init]
+
 example : builtinDesc TypeId.TypeBufferPtr = some { size := 8, init := false, fini := false } ∧
     builtinDesc TypeId.TypeVector = some { size := 16, init := false, fini := false } := by decide
 
